@@ -67,18 +67,19 @@ Fixpoint list_eqb (a b : list Z) : bool :=
   end.
 Definition memkey (k : list Z) (seen : list (list Z)) : bool := existsb (list_eqb k) seen.
 
-(* conclusion selection of a rule with one refinement: a binding of the conclusion variables concludes once;
-   the refinement's conclusion (tag 1) replaces the base conclusion (tag 0) when its condition holds *)
+(* conclusion selection of a rule with one refinement: the refinement's conclusion (tag 1) replaces the base conclusion
+   (tag 0) when its condition holds; a binding of the conclusion variables concludes once PER SET OF CONCLUSIONS
+   (krrood 35fa150: the coverage memory is keyed by truth branch and conclusion set), so the remembered key is tag :: binding *)
 Fixpoint conclude (A : attrs) (exc : list atom) (sel : list nat) (bs : list bindings) (seen : list (list Z))
   : list (list Z) * list (list Z) :=
   match bs with
   | [] => ([], seen)
   | b :: r =>
-      let key := row sel b in
+      let tag := if forallb (sat_atom A b) exc then 1 else 0 in
+      let key := tag :: row sel b in
       if memkey key seen then conclude A exc sel r seen
-      else let tag := if forallb (sat_atom A b) exc then 1 else 0 in
-           let '(rows, seen') := conclude A exc sel r (seen ++ [key]) in
-           ((tag :: key) :: rows, seen')
+      else let '(rows, seen') := conclude A exc sel r (seen ++ [key]) in
+           (key :: rows, seen')
   end.
 
 Definition iso_rows (W : world) (A : attrs) (q : query) : list (list Z) :=
